@@ -463,6 +463,7 @@ class Normalizer(object):
         if isinstance(node, ast.Lambda):
             return
         ctx = dict(fi=fi, names=self._all_names(node), stack=[fi])
+        self._cur_fi = fi
         node.body = self.inline_block(node.body, ctx, 0)
         self.canonical_statements(node, fi, ctx)
         changed = True
@@ -472,7 +473,10 @@ class Normalizer(object):
             changed = self.split_tuple_assigns(node)
             changed |= self.copy_prop(node)
             changed |= self.splice_stars(node)
-            changed |= self.canonical_statements(node, fi, ctx)
+            if self.canonical_statements(node, fi, ctx):
+                # the canonical spelling may expose calls of helpers
+                node.body = self.inline_block(node.body, ctx, 0)
+                changed = True
         if not node.body:
             node.body = [ast.Pass()]
         ast.fix_missing_locations(node)
@@ -572,6 +576,19 @@ class Normalizer(object):
                     changed[0] = True
                     i += 1
                     continue
+                if isinstance(st, ast.For) and is_stage_loop(st):
+                    for e in st.iter.elts:
+                        nm = self.fresh(st.target.id)
+                        ctx['names'].add(nm)
+                        out.append(ast.copy_location(ast.Assign(
+                            targets=[ast.Name(id=nm, ctx=ast.Store())],
+                            value=e), st))
+                        sub = Subst({}, {st.target.id: nm})
+                        out.extend(sub.visit(b)
+                                   for b in copy.deepcopy(st.body))
+                    changed[0] = True
+                    i += 1
+                    continue
                 out.append(st)
                 i += 1
             for st in out:
@@ -581,7 +598,100 @@ class Normalizer(object):
                 for owner, f in sub_blocks(st):
                     setattr(owner, f, block(getattr(owner, f)))
             return out
+
+        def ext(e):
+            try:
+                return getattr(db.resolve_dotted(fi.module, e), 'dotted',
+                               None)
+            except AnalysisError:
+                return None
+
+        def unshadowed(e):
+            try:
+                return db.resolve_dotted(fi.module, e) is None
+            except AnalysisError:
+                return False
+
+        def plain(e):
+            if isinstance(e, (ast.Constant, ast.Name)):
+                return True
+            if isinstance(e, ast.Attribute):
+                return e.attr not in self.unstable and plain(e.value)
+            return False
+
+        def stage(e):
+            if plain(e) and not isinstance(e, ast.Constant):
+                return True
+            if isinstance(e, ast.Lambda):
+                return True
+            return isinstance(e, ast.Call) and isinstance(
+                e.func, (ast.Name, ast.Attribute)) and \
+                ext(e.func) == 'functools.partial' and all(
+                    plain(a) for a in e.args) and all(
+                        k.arg is not None and plain(k.value)
+                        for k in e.keywords)
+
+        def is_stage_loop(st):
+            # for f in (stage, stage, ...): ... f(...) ...   -- a pipeline
+            # of callables, run in order: that many copies of the body
+            if st.orelse or not isinstance(st.iter, (ast.Tuple, ast.List)) \
+                    or not isinstance(st.target, ast.Name):
+                return False
+            elts = st.iter.elts
+            if not (1 <= len(elts) <= 6) or len(st.body) > 4 or \
+                    not all(stage(e) for e in elts):
+                return False
+            if contains(st.body, (ast.Break, ast.Continue, ast.Return,
+                                  ast.Yield, ast.YieldFrom)):
+                return False
+            nm = st.target.id
+            if any(isinstance(x, ast.Name) and x.id == nm and isinstance(
+                    x.ctx, ast.Store) for b in st.body for x in ast.walk(b)):
+                return False
+            mine = set(id(x) for x in ast.walk(st))
+            if any(isinstance(x, ast.Name) and x.id == nm and
+                   id(x) not in mine for x in ast.walk(fnode)):
+                return False        # the last value is read after the loop
+            return any(isinstance(x, ast.Call) and isinstance(
+                x.func, ast.Name) and x.func.id == nm
+                for b in st.body for x in ast.walk(b))
+
+        class E(ast.NodeTransformer):
+            def visit_FunctionDef(self, n):
+                return n if n is not fnode else self.generic_visit(n)
+            visit_AsyncFunctionDef = visit_FunctionDef
+
+            def visit_Call(self, n):
+                self.generic_visit(n)
+                f = n.func
+                # partial(g, a..)(b..)  ->  g(a.., b..)
+                if isinstance(f, ast.Call) and isinstance(
+                        f.func, (ast.Name, ast.Attribute)) and f.args and \
+                        ext(f.func) == 'functools.partial' and not (
+                            set(k.arg for k in f.keywords)
+                            & set(k.arg for k in n.keywords)) and all(
+                                k.arg is not None
+                                for k in f.keywords + n.keywords):
+                    changed[0] = True
+                    return ast.copy_location(ast.Call(
+                        func=f.args[0], args=f.args[1:] + n.args,
+                        keywords=f.keywords + n.keywords), n)
+                # getattr(o, 'name')  ->  o.name
+                if isinstance(f, ast.Name) and f.id == 'getattr' and \
+                        len(n.args) == 2 and not n.keywords and \
+                        isinstance(n.args[1], ast.Constant) and isinstance(
+                            n.args[1].value, str) and \
+                        n.args[1].value.isidentifier() and \
+                        'getattr' not in me._locals(ctx) and \
+                        unshadowed(f):
+                    changed[0] = True
+                    return ast.copy_location(ast.Attribute(
+                        value=n.args[0], attr=n.args[1].value,
+                        ctx=ast.Load()), n)
+                return n
+        me = self
         fnode.body = block(fnode.body)
+        E().visit(fnode)
         if changed[0]:
             ast.fix_missing_locations(fnode)
             self.stats['idioms'] = self.stats.get('idioms', 0) + 1
@@ -1325,6 +1435,12 @@ class Normalizer(object):
                 # (P2) single use at the start of the next statement
                 if len(uses) == 1 and after:
                     nxt = after[0]
+                    holder = None
+                    while isinstance(nxt, ast.Try) and nxt.body and \
+                            self._cannot_raise(st.value):
+                        # entering a try block evaluates nothing
+                        holder = nxt
+                        nxt = nxt.body[0]
                     if isinstance(nxt, ast.While):
                         continue
                     ok = False
@@ -1350,11 +1466,38 @@ class Normalizer(object):
                         break
                     if ok and not self._reads_unstable_after_call(
                             st.value, nxt, uses[0]):
-                        block[i + 1] = replace_node(
-                            nxt, uses[0], st.value)
+                        if holder is not None:
+                            holder.body[0] = replace_node(
+                                nxt, uses[0], st.value)
+                        else:
+                            block[i + 1] = replace_node(
+                                nxt, uses[0], st.value)
                         del block[i]
                         self.stats['temps'] += 1
                         return True
+        return False
+
+    def _cannot_raise(self, e):
+        """names, constants, stable attribute reads, displays of those and
+        functools.partial(...) of those: moving the evaluation into a try
+        block shows the handlers nothing new."""
+        fi = self._cur_fi
+        if isinstance(e, (ast.Constant, ast.Name)):
+            return True
+        if isinstance(e, ast.Attribute):
+            return e.attr not in self.unstable and self._cannot_raise(e.value)
+        if isinstance(e, (ast.Tuple, ast.List)):
+            return all(self._cannot_raise(x) for x in e.elts)
+        if isinstance(e, ast.Call) and isinstance(
+                e.func, (ast.Name, ast.Attribute)) and fi is not None:
+            try:
+                ent = self.db.resolve_dotted(fi.module, e.func)
+            except AnalysisError:
+                return False
+            return getattr(ent, 'dotted', None) == 'functools.partial' and \
+                all(self._cannot_raise(a) for a in e.args) and all(
+                    k.arg is not None and self._cannot_raise(k.value)
+                    for k in e.keywords)
         return False
 
     @staticmethod
